@@ -46,7 +46,8 @@ def accessorsHandler : Handler
       match ts with
       | m :: ts =>
         let (b, _) ← readHashes (Bytes.ofString "sha512") (← m.toNat?) ts
-        pure ("[" ++ String.intercalate "," ((bestChecksums a b).map dumpHash) ++ "]")
+        pure (if a.isEmpty && b.isEmpty then "nil"
+              else "[" ++ String.intercalate "," ((bestChecksums a b).map dumpHash) ++ "]")
       | [] => none
   | "acc-optdep", [present, field, text] => do
       let field ← hx field
@@ -57,6 +58,7 @@ def accessorsHandler : Handler
       let filename ← hx filename
       let (names, _) ← readHexList (← n.toNat?) ts
       pure (dumpList (absFiles filename names))
+  | "acc-byhash", [path, bh, h] => do pure (out (byHashPath (← hx path) (← hx bh) (← hx h)))
   | "acc-abs", [cwd, p] => do pure (out (abs (← hx cwd) (← hx p)))
   | "acc-getdsc", cwd :: filename :: n :: ts => do
       let cwd ← hx cwd
